@@ -91,3 +91,114 @@ def replay_dump(path, family, prop, strict, variants_name="variants", want_phase
             if len(samples) < 4:
                 samples += s
     return total, bad, samples[:4]
+
+
+# ------------------------------------------------------------------ heap machine (programs are behaviours)
+def mech_rows(bufs, v):
+    return [[bufs[v[0] - 1][p - 1] for p in row] for row in v[1]]
+
+
+def _step_handles(step):
+    k = step[0]
+    if k in ("select", "assign", "read"):
+        return [step[1]]
+    if k == "ufunc":
+        return [o[1] for o in (step[2], step[3]) if o[0] == "h"]
+    if k == "func":
+        return [step[2], step[3][0]] if step[1] == "concat" else [step[2]]
+    return []
+
+
+def judge_heap_state(st, run, strict=False):
+    """Compare the real objects after the program with level A (heap) and, for classification, with level M.
+    Returns a list of mismatch dicts (empty = conforms)."""
+    from .judge import judge
+    bad = []
+    heap, bufs, view = st["heap"], st["bufs"], st["view"]
+    stale = st["stale"]["__set__"] if isinstance(st["stale"], dict) else list(st["stale"])
+    final = run[-1]
+    obs = final["obs"]
+    if len(obs) != len(heap):
+        bad.append({"verdict": "handles", "expected": ["handles", len(heap)], "observed": ["handles", len(obs)], "handle": 0})
+        return bad
+    for g, (exp, ob) in enumerate(zip(heap, obs), 1):
+        e = ["ragged", exp[0], exp[1]]
+        o = ["ragged", ob[0], ob[1]] if ob[0] != "raised" else ob
+        v = judge(e, o, False)
+        if v != "ok":
+            m = ["ragged", exp[0], mech_rows(bufs, view[g - 1])]
+            bad.append({"verdict": v, "expected": e, "observed": o, "handle": g, "stale": g in stale,
+                        "mech": m, "mech_match": judge(m, o, False) == "ok"})
+    last = st["last"]
+    res = final["res"]
+    if last[0] == "obs":
+        if res[0] != "obs":
+            bad.append({"verdict": "not-refused" if last[1][0] == "refused" else "kind", "expected": last[1], "observed": res, "handle": 0})
+        else:
+            v = judge(last[1], res[1], False)
+            if v not in ("ok", "unspec"):
+                hs = [h for h in _step_handles(st["hist"][-1])]
+                bad.append({"verdict": v, "expected": last[1], "observed": res[1], "handle": 0, "stale": any(h in stale for h in hs),
+                            "mech": last[2], "mech_match": judge(last[2], res[1], False) == "ok"})
+    elif last[0] == "new" and res[0] != "new":
+        bad.append({"verdict": "raised" if res[0] == "obs" else "kind", "expected": last, "observed": res, "handle": 0})
+    elif last[0] == "none" and res[0] == "obs":
+        bad.append({"verdict": "raised", "expected": last, "observed": res[1], "handle": 0})
+    return bad
+
+
+def _heap_worker(args):
+    path, start, end, prop, variants_name, min_len = args
+    from . import exec_heap
+    vmod = importlib.import_module("harness.props")
+    variants = getattr(vmod, variants_name)
+    with open(path, "rb") as f:
+        f.seek(start)
+        text = f.read(end - start).decode()
+    stats = {"cases": 0, "evals": 0, "ok": 0, "unspec": 0, "nontrivial": 0, "observations": 0}
+    bad, samples = [], []
+    for body in tlaparse.split_states(text):
+        st = tlaparse.parse_state(body, ("hist", "heap", "bufs", "view", "stale", "last"))
+        prog = st.get("hist")
+        if not prog or len(prog) < min_len:
+            continue
+        stats["cases"] += 1
+        if len(prog) >= 2:
+            stats["nontrivial"] += 1
+        if len(samples) < 1:
+            samples.append({"program": prog, "expected_heap": st["heap"]})
+        for opts in variants(prop, ["program", prog]):
+            try:
+                signal.signal(signal.SIGALRM, _alarm)
+                signal.alarm(CASE_TIMEOUT)
+                run = exec_heap.run_program(prog, opts, observe="last")
+            except _Timeout:
+                bad.append({"steps": prog, "opts": opts, "verdict": "noreturn", "expected": None, "observed": ["noreturn"], "handle": 0})
+                continue
+            finally:
+                signal.alarm(0)
+            stats["evals"] += 1
+            stats["observations"] += len(st["heap"])
+            b = judge_heap_state(st, run)
+            if not b:
+                stats["ok"] += 1
+            for x in b:
+                x.update({"steps": prog, "opts": opts})
+            bad += b
+    return stats, bad, samples
+
+
+def replay_heap_dump(path, prop, variants_name="heap_variants", min_len=1, procs=NCPU):
+    offs = _split_offsets(path, procs * 4)
+    tasks = [(path, a, b, prop, variants_name, min_len) for a, b in zip(offs, offs[1:])]
+    total = {"cases": 0, "evals": 0, "ok": 0, "unspec": 0, "nontrivial": 0, "observations": 0}
+    bad, samples = [], []
+    ctx = mp.get_context("fork")
+    with ctx.Pool(procs) as pool:
+        for stats, b, s in pool.imap_unordered(_heap_worker, tasks):
+            for k in total:
+                total[k] += stats[k]
+            bad += b
+            if len(samples) < 3:
+                samples += s
+    return total, bad, samples[:3]
